@@ -52,7 +52,16 @@ func (w *world) dispatch(p vhlib.ParsedLine) {
 		}
 		return
 	}
+	// an RHP2 lock session stays open only across consecutive ses=1 RPCs on its contract (prep2);
+	// everything else needs the contract lock itself or ends the session explicitly
 	switch p.Op {
+	case "write", "read", "roots", "renew2":
+	default:
+		w.closeSession()
+	}
+	switch p.Op {
+	case "unlock":
+		w.tr.Line("unlock", w.dump())
 	case "form":
 		w.doForm(p)
 	case "write":
@@ -235,6 +244,131 @@ func (g *gen) program(fc int) string {
 	return "[" + strings.Join(toks, ",") + "]"
 }
 
+func (g *gen) genWrite(c int, extra ...string) {
+	w, r := g.w, g.r
+	n := g.sectors(c)
+	var acts []string
+	for i, k := 0, 1+r.Intn(2); i < k; i++ {
+		switch y := r.Intn(10); {
+		case y < 5 && n < 5:
+			w.sectorSeq++
+			acts = append(acts, fmt.Sprintf("a%d", w.sectorSeq))
+			n++
+		case y < 7 && n > 0:
+			acts = append(acts, "t1")
+			n--
+		case y < 8 && n > 1:
+			acts = append(acts, fmt.Sprintf("s%d:%d", r.Intn(n), r.Intn(n)))
+		case n > 0 && len(g.appended) > 0 && r.Chance(1, 2):
+			// patch a sector into one the host (probably) stores already: the only way an RHP2 update
+			// is accepted on the current tree; a fresh seed gives the refused variant
+			seed := g.appended[r.Intn(len(g.appended))]
+			if r.Chance(1, 4) {
+				seed = 900000 + uint64(r.Intn(1000))
+			}
+			acts = append(acts, fmt.Sprintf("U%d:%d", r.Intn(n), seed))
+		case n > 0:
+			acts = append(acts, fmt.Sprintf("u%d:%d:%d:%d", r.Intn(n), 64*r.Intn(100), 64*(1+r.Intn(4)), r.Intn(1000)))
+		}
+	}
+	if len(acts) == 0 {
+		w.sectorSeq++
+		acts = append(acts, fmt.Sprintf("a%d", w.sectorSeq))
+	}
+	for _, a := range acts {
+		if a[0] == 'a' {
+			var sd uint64
+			fmt.Sscan(a[1:], &sd)
+			g.appended = append(g.appended, sd)
+		}
+	}
+	bm := vhlib.Pick(r, 1000, 1000, 1000, 0, 500, 999, 1001)
+	// a Merkle proof request together with an update action must be refused (fix b659995)
+	proof := r.Intn(2)
+	w.dispatch(mkOp("write", append([]string{"c", fmt.Sprint(c), "acts", "[" + strings.Join(acts, ",") + "]", "ov", pickOver(r, g.tr, g.vrp(c)), "bm", fmt.Sprint(bm), "proof", fmt.Sprint(proof)}, extra...)...))
+}
+
+func (g *gen) genRead(c int, extra ...string) {
+	w, r := g.w, g.r
+	n := g.sectors(c)
+	if n == 0 {
+		return
+	}
+	var secs []string
+	for i, k := 0, 1+r.Intn(2); i < k; i++ {
+		secs = append(secs, fmt.Sprintf("%d:%d:%d", r.Intn(n), 64*r.Intn(32), 64*(1+r.Intn(32))))
+	}
+	w.dispatch(mkOp("read", append([]string{"c", fmt.Sprint(c), "secs", "[" + strings.Join(secs, ",") + "]", "ov", pickOver(r, g.tr, g.vrp(c))}, extra...)...))
+}
+
+func (g *gen) genRoots(c int, extra ...string) {
+	w, r := g.w, g.r
+	n := g.sectors(c)
+	off, cnt := uint64(0), uint64(0)
+	switch {
+	case n == 0 || r.Chance(1, 6):
+		// ranges rpcSectorRoots must refuse before charging (fix e3519d3): empty, past the end, wrapping
+		switch r.Intn(5) {
+		case 0:
+			off, cnt = uint64(r.Intn(n+1)), 0
+		case 1:
+			off, cnt = uint64(n), 1
+		case 2:
+			off, cnt = 0, uint64(n+1)
+		case 3:
+			off, cnt = ^uint64(0), 2
+		default:
+			off, cnt = uint64(n+1+r.Intn(3)), uint64(r.Intn(2))
+		}
+	default:
+		off = uint64(r.Intn(n))
+		cnt = 1 + uint64(r.Intn(n-int(off)))
+	}
+	w.dispatch(mkOp("roots", append([]string{"c", fmt.Sprint(c), "off", fmt.Sprint(off), "n", fmt.Sprint(cnt), "ov", pickOver(r, g.tr, g.vrp(c))}, extra...)...))
+}
+
+func (g *gen) genRenew2(c int, extra ...string) {
+	w, r := g.w, g.r
+	w.dispatch(mkOp("renew2", append([]string{"c", fmt.Sprint(c), "ov", pickOver(r, g.tr, g.vrp(c)), "rp", cs(sc.Mul64(uint64(50 + r.Intn(500)))), "col", cs(sc.Mul64(uint64(r.Intn(300)))), "ext", fmt.Sprint(r.Intn(30))}, extra...)...))
+}
+
+// session: several paying RHP2 RPCs under ONE contract lock, in any order (write / read / sector
+// roots, sometimes a renew-and-clear in between or at the end); the renter is honest (builds on the
+// latest revision) or builds on the revision 1-2 RPCs back in the same session.
+func (g *gen) session() {
+	w, r := g.w, g.r
+	c := g.pickContract()
+	k := 2 + r.Intn(4)
+	renewAt := -1
+	if r.Chance(1, 6) {
+		renewAt = r.Intn(k + 1)
+	}
+	g.tr.Count("session:burst")
+	for i := 0; i < k; i++ {
+		if c >= len(w.cids) {
+			break
+		}
+		base := "0"
+		if i > 0 && r.Chance(1, 4) {
+			base = fmt.Sprint(1 + r.Intn(2))
+		}
+		extra := []string{"ses", "1", "sb", base}
+		switch {
+		case i == renewAt:
+			g.genRenew2(c, extra...)
+		case g.sectors(c) == 0 || r.Chance(2, 5):
+			g.genWrite(c, extra...)
+		case r.Chance(1, 2):
+			g.genRoots(c, extra...)
+		default:
+			g.genRead(c, extra...)
+		}
+	}
+	if r.Chance(3, 4) {
+		w.dispatch(mkOp("unlock"))
+	}
+}
+
 func (g *gen) stepV1() {
 	w, r := g.w, g.r
 	if len(w.cids) == 0 {
@@ -255,82 +389,11 @@ func (g *gen) stepV1() {
 	case x < 5 && len(w.cids) < 4:
 		g.form()
 	case x < 23:
-		c := g.pickContract()
-		n := g.sectors(c)
-		var acts []string
-		for i, k := 0, 1+r.Intn(2); i < k; i++ {
-			switch y := r.Intn(10); {
-			case y < 5 && n < 5:
-				w.sectorSeq++
-				acts = append(acts, fmt.Sprintf("a%d", w.sectorSeq))
-				n++
-			case y < 7 && n > 0:
-				acts = append(acts, "t1")
-				n--
-			case y < 8 && n > 1:
-				acts = append(acts, fmt.Sprintf("s%d:%d", r.Intn(n), r.Intn(n)))
-			case n > 0 && len(g.appended) > 0 && r.Chance(1, 2):
-				// patch a sector into one the host (probably) stores already: the only way an RHP2 update
-				// is accepted on the current tree; a fresh seed gives the refused variant
-				seed := g.appended[r.Intn(len(g.appended))]
-				if r.Chance(1, 4) {
-					seed = 900000 + uint64(r.Intn(1000))
-				}
-				acts = append(acts, fmt.Sprintf("U%d:%d", r.Intn(n), seed))
-			case n > 0:
-				acts = append(acts, fmt.Sprintf("u%d:%d:%d:%d", r.Intn(n), 64*r.Intn(100), 64*(1+r.Intn(4)), r.Intn(1000)))
-			}
-		}
-		if len(acts) == 0 {
-			w.sectorSeq++
-			acts = append(acts, fmt.Sprintf("a%d", w.sectorSeq))
-		}
-		for _, a := range acts {
-			if a[0] == 'a' {
-				var sd uint64
-				fmt.Sscan(a[1:], &sd)
-				g.appended = append(g.appended, sd)
-			}
-		}
-		bm := vhlib.Pick(r, 1000, 1000, 1000, 0, 500, 999, 1001)
-		// a Merkle proof request together with an update action must be refused (fix b659995)
-		proof := r.Intn(2)
-		w.dispatch(mkOp("write", "c", fmt.Sprint(c), "acts", "["+strings.Join(acts, ",")+"]", "ov", pickOver(r, g.tr, g.vrp(c)), "bm", fmt.Sprint(bm), "proof", fmt.Sprint(proof)))
+		g.genWrite(g.pickContract())
 	case x < 31:
-		c := g.pickContract()
-		n := g.sectors(c)
-		if n == 0 {
-			return
-		}
-		var secs []string
-		for i, k := 0, 1+r.Intn(2); i < k; i++ {
-			secs = append(secs, fmt.Sprintf("%d:%d:%d", r.Intn(n), 64*r.Intn(32), 64*(1+r.Intn(32))))
-		}
-		w.dispatch(mkOp("read", "c", fmt.Sprint(c), "secs", "["+strings.Join(secs, ",")+"]", "ov", pickOver(r, g.tr, g.vrp(c))))
+		g.genRead(g.pickContract())
 	case x < 37:
-		c := g.pickContract()
-		n := g.sectors(c)
-		off, cnt := uint64(0), uint64(0)
-		switch {
-		case n == 0 || r.Chance(1, 6):
-			// ranges rpcSectorRoots must refuse before charging (fix e3519d3): empty, past the end, wrapping
-			switch r.Intn(5) {
-			case 0:
-				off, cnt = uint64(r.Intn(n+1)), 0
-			case 1:
-				off, cnt = uint64(n), 1
-			case 2:
-				off, cnt = 0, uint64(n+1)
-			case 3:
-				off, cnt = ^uint64(0), 2
-			default:
-				off, cnt = uint64(n+1+r.Intn(3)), uint64(r.Intn(2))
-			}
-		default:
-			off = uint64(r.Intn(n))
-			cnt = 1 + uint64(r.Intn(n-int(off)))
-		}
-		w.dispatch(mkOp("roots", "c", fmt.Sprint(c), "off", fmt.Sprint(off), "n", fmt.Sprint(cnt), "ov", pickOver(r, g.tr, g.vrp(c))))
+		g.genRoots(g.pickContract())
 	case x < 40:
 		pay := g.payArgs()
 		w.dispatch(mkOp("pt", append(pay, "ov", g.over(pay))...))
@@ -351,14 +414,15 @@ func (g *gen) stepV1() {
 	case x < 58:
 		pay := g.payArgs()
 		w.dispatch(mkOp("rev", append(pay, "ov", g.over(pay), "q", fmt.Sprint(r.Intn(len(w.cids))))...))
+	case x < 66:
+		g.session()
 	case x < 88:
 		pay := g.payArgs()
 		fc := g.pickContract()
 		fm := vhlib.Pick(r, 1000, 1000, 1000, 0, 500, 1001)
 		w.dispatch(mkOp("exec", append(pay, "fc", fmt.Sprint(fc), "prog", g.program(fc), "ov", g.over(pay), "fm", fmt.Sprint(fm))...))
 	case x < 92:
-		c := g.pickContract()
-		w.dispatch(mkOp("renew2", "c", fmt.Sprint(c), "ov", pickOver(r, g.tr, g.vrp(c)), "rp", cs(sc.Mul64(uint64(50+r.Intn(500)))), "col", cs(sc.Mul64(uint64(r.Intn(300)))), "ext", fmt.Sprint(r.Intn(30))))
+		g.genRenew2(g.pickContract())
 	case x < 96:
 		c := g.pickContract()
 		w.dispatch(mkOp("renew3", "c", fmt.Sprint(c), "ov", pickOver(r, g.tr, g.vrp(c)), "rp", cs(sc.Mul64(uint64(50+r.Intn(500)))), "col", cs(sc.Mul64(uint64(r.Intn(300)))), "ext", fmt.Sprint(r.Intn(30))))
